@@ -46,6 +46,21 @@ def dec(e):
   raise ValueError(t)
 
 
+def pack_tree(tree):
+  """A conditional tree description as one JSON string: the recorder of
+  violations cuts nested containers below depth 12, which a depth-3 tree exceeds."""
+  import json
+  return json.dumps(tree)
+
+
+def case_tree(case):
+  """The tree of a recorded case (prefers the packed form)."""
+  import json
+  if case.get('tree_json'):
+    return json.loads(case['tree_json'])
+  return case['tree']
+
+
 def xmember1(p, v):
   """True / False / None (= not decided by the property) for one raw value.
 
